@@ -195,6 +195,18 @@ CHECKS = {
              "full sweeps of every 8/16-bit field; struct-free oracle.",
         ref="4 C15", technique="Coq proof (little-endian pack/unpack lemmas, bit decomposition) + ast-extracted formats (T) + vm_compute correspondence",
         note=TB + " struct.pack semantics are modelled by the format interpreter."),
+    "C14": dict(
+        text="Full (machine replies per the documented layouts). Bit-field extraction, P2P table walk, version decoding, status "
+             "slicing and IOBUF walk expressions are translated from source on every run; enums, struct tables and regex dumped "
+             "live. Theorems over all machine states up to 255x255 addressing: chip-info, P2P table, router counters and version "
+             "encode/decode round trips at full field width; get_system_info reports exactly the routed, answering chips with their "
+             "true info; the built Machine has exactly those chips, resources and links with dead chips/links as complements; the "
+             "generated core reservations are non-empty, pairwise disjoint and cover exactly the non-idle cores; the whole chain "
+             "from machine state to Machine + constraints; IOBUF chain walk (acyclicity hypothesis proved necessary); status "
+             "slicing. The real SCPConnection/MachineController run against a wire-level simulated machine written without rig; "
+             "correspondence on SystemInfo, Machine, constraints, statuses, IOBUF, counters; ground-truth oracle.",
+        ref="4 C14", technique="Coq proof (encode/decode round trips, exactness of the derived machine model) + py2v/ast translation + vm_compute correspondence",
+        note=TB + " SC&MP reply layouts as documented; read chunking/retransmission are C07/C06; a 256-wide machine cannot be encoded in the 8-bit dimension fields and is excluded."),
 }
 NOT_YET = {}
 def main():
